@@ -78,6 +78,7 @@ TRANSLATORS = {
     "GenSemiAsync": "gen_semiasync",
     "GenKernel": "gen_kernel",
     "GenRviStep": "gen_rvistep",
+    "GenPiEval": "gen_pieval",
 }
 
 
